@@ -253,15 +253,29 @@ fn main() {
                 sighup_listener.recv().await;
                 info!("Reloading TLS hosts settings");
 
-                let tls_hosts_settings: settings::TlsHostsSettings = toml::from_str(
-                    &std::fs::read_to_string(&tls_hosts_settings_path)
-                        .expect("Couldn't read the TLS hosts settings file"),
-                )
-                .expect("Couldn't parse the TLS hosts settings file");
+                // A failed reload must leave the endpoint running with the settings in force
+                let tls_hosts_settings: settings::TlsHostsSettings =
+                    match std::fs::read_to_string(&tls_hosts_settings_path)
+                        .map_err(|e| format!("Couldn't read the TLS hosts settings file: {}", e))
+                        .and_then(|x| {
+                            toml::from_str(&x).map_err(|e| {
+                                format!("Couldn't parse the TLS hosts settings file: {}", e)
+                            })
+                        }) {
+                        Ok(x) => x,
+                        Err(e) => {
+                            error!("{}, the current settings stay in force", e);
+                            continue;
+                        }
+                    };
 
-                core.reload_tls_hosts_settings(tls_hosts_settings)
-                    .expect("Couldn't apply new settings");
-                info!("TLS hosts settings are successfully reloaded");
+                match core.reload_tls_hosts_settings(tls_hosts_settings) {
+                    Ok(()) => info!("TLS hosts settings are successfully reloaded"),
+                    Err(e) => error!(
+                        "Couldn't apply new TLS hosts settings, the current ones stay in force: {}",
+                        e
+                    ),
+                }
             }
         }
     };
